@@ -28,6 +28,7 @@ ISA_FLAGS = {
 }
 ISA_VEC_BYTES = {'scalar': 0, 'sse2': 16, 'sse4.2': 16, 'avx': 32, 'avx2': 32, 'avx512': 64}
 GUARD = 'FASTOR_VERIF'
+ATOMS_LIKE = ('ATOMS', 'TAGS', 'BASIS')   # modes translated with the typed integer/float operation macros
 
 class Cfg:
     def __init__(s, isa='sse2', std='c++14', macros=(), pipe='P1', checks=False):
@@ -101,6 +102,10 @@ class E:
     def __neg__(s): return E('neg', s.ty, (s,))
     def fabs(s): return E('abs', s.ty, (s,))
     def sqrt(s): return E('sqrt', s.ty, (s,))
+    def ringval(s, native=None):
+        # ATOMS only: the value is in the product class (no poison reached it).  The native replay oracle, which runs on real
+        # integer-valued data, compares with `native` (the specified value) instead, or is true when none is given.
+        return E('ringval', BOOL, (s,) if native is None else (s, native))
     @staticmethod
     def fma(a, b, c): return E('fma', a.ty, (a, b, c))   # fused multiply-add a*b+c with one rounding (opaque in every mode)
     def fn(s, name): return E('libm', s.ty, (s,), name)
@@ -158,13 +163,13 @@ class E:
         if ty.kind == 'float' and op == 'fma': return 'FMA_%d(%s, %s, %s)' % (b, A[0], A[1], A[2])
         if ty.kind == 'float' and op == 'libm': return 'FLIBM_%s_%d(%s)' % (s.data, b, A[0])
         if ty.kind == 'int' and op in ('add', 'sub', 'mul'):
-            if mode == 'ATOMS': return 'I%s_%d(%s, %s)' % (op.upper(), b, A[0], A[1])
+            if mode in ATOMS_LIKE: return 'I%s_%d(%s, %s)' % (op.upper(), b, A[0], A[1])
             return '(%s)(%s %s %s)' % (car, A[0], {'add': '+', 'sub': '-', 'mul': '*'}[op], A[1])
         if ty.kind == 'int' and op == 'div':
             if ty.signed: return '(%s)((%s)%s / (%s)%s)' % (car, ty.scar, A[0], ty.scar, A[1])
             return '(%s)(%s / %s)' % (car, A[0], A[1])
         if ty.kind == 'int' and op == 'neg':
-            if mode == 'ATOMS': return 'ISUB_%d((%s)0, %s)' % (b, car, A[0])
+            if mode in ATOMS_LIKE: return 'ISUB_%d((%s)0, %s)' % (b, car, A[0])
             return '(%s)(0 - %s)' % (car, A[0])
         if ty.kind == 'int' and op == 'abs':
             return '(((%s)%s < 0) ? (%s)(0 - %s) : %s)' % (ty.scar, A[0], car, A[0], A[0])
@@ -180,6 +185,7 @@ class E:
                 return '((u8)((%s)%s %s (%s)%s))' % (at.scar, A[0], cop, at.scar, A[1])
             return '((u8)(%s %s %s))' % (A[0], cop, A[1])
         if op == 'same': return '((u8)((%s) == (%s)))' % (A[0], A[1])
+        if op == 'ringval': return '((u8)((((u64)(%s)) & PROD_MASK) == 0))' % A[0]
         if op == 'land': return '((u8)((%s) && (%s)))' % (A[0], A[1])
         if op == 'lor': return '((u8)((%s) || (%s)))' % (A[0], A[1])
         if op == 'lnot': return '((u8)(!(%s)))' % A[0]
@@ -247,6 +253,7 @@ class E:
             cop = {'lt': '<', 'le': '<=', 'gt': '>', 'ge': '>=', 'eq': '==', 'ne': '!='}[s.data]
             return '(%s %s %s)' % (A[0], cop, A[1])
         if op == 'same': return 'same<%s>(%s, %s)' % (s.args[0].ty.cpp, A[0], A[1])
+        if op == 'ringval': return '(true)' if len(A) == 1 else '(%s == %s)' % (A[0], A[1])
         if op == 'land': return '(%s && %s)' % (A[0], A[1])
         if op == 'lor': return '(%s || %s)' % (A[0], A[1])
         if op == 'lnot': return '(!%s)' % A[0]
@@ -334,6 +341,8 @@ def param_c_names(case):
 def atom_value(case, b, k):
     """ATOMS: concrete / table value given to input element k of buffer b (C expression)."""
     if k in case.zero_in.get(b.name, ()): return '((%s)0)' % b.ty.carrier
+    if case.mode == 'TAGS': return '((%s)(1u << (20 + %d)))' % (b.ty.carrier, b.atoms[1])
+    if case.mode == 'BASIS': return '((%s)(pos_%s == %du))' % (b.ty.carrier, b.name, k)
     if b.atoms in ('A', 'AA'): return '((%s)(ATOM_A0 + %d))' % (b.ty.carrier, b.aoff + k)   # 'AA': A-atoms that may be multiplied with each other (quadratic forms: norm)
     if b.atoms == 'B': return '((%s)(ATOM_B0 + %d))' % (b.ty.carrier, b.aoff + k)
     if b.atoms == 'LIN':
@@ -359,24 +368,32 @@ def scalar_requires(case, nm):
                 out.append('(%s >= %dULL && %s <= %dULL)' % (x, sc.lo, x, sc.hi))
     return out
 
+def full_tag(case, outbuf):
+    """TAGS mode: the tag every output element must carry = union of the operand tags (degree exactly 1 in every operand)."""
+    t = 0
+    for b in case.bufs:
+        if isinstance(b.atoms, tuple) and b.atoms[0] == 'T': t |= 1 << (20 + b.atoms[1])
+    if getattr(case, 'tags_expect_wrong', False): t |= 1 << 29
+    return '((%s)%dULL)' % (outbuf.ty.carrier, t)
+
 def contract_text(case, fname='w', mutable_globals=()):
     """DFCC contract clauses for the translated entry."""
     pn = param_c_names(case)
     assign_atom_offsets(case)
     L = []
     for b in case.bufs:
-        if case.mode == 'ATOMS' or case.b01:
+        if case.mode in ATOMS_LIKE or case.b01:
             # provenance-concrete mode: the harness owns exact-extent buffers that already hold the atom ids
             # (is_fresh would replace them by nondeterministic objects and every id would become symbolic)
             L.append('__CPROVER_requires(__CPROVER_%s(%s, %d))' % ('r_ok' if b.role == 'in' else 'rw_ok', pn[b.name], b.n * b.ty.bits // 8))
         else:
             L.append('__CPROVER_requires(__CPROVER_is_fresh(%s, %d))' % (pn[b.name], b.n * b.ty.bits // 8))
-    L.append('__CPROVER_requires(VERIF_threw == 0 && VERIF_illtyped == 0%s)' % (' && VERIF_softtyped == 0' if case.mode == 'ATOMS' else ''))
+    L.append('__CPROVER_requires(VERIF_threw == 0 && VERIF_illtyped == 0%s)' % (' && VERIF_softtyped == 0' if case.mode in ATOMS_LIKE else ''))
     ctx = {'mode': case.mode,
            'argname': lambda sc: pn[sc.name]}
     def pre(buf, ke):
         e = '((%s*)%s)[%s]' % (buf.ty.carrier, pn[buf.name], ke)
-        if case.mode == 'ATOMS' and buf.atoms and ke.isdigit(): return atom_value(case, buf, int(ke))
+        if case.mode in ('ATOMS', 'TAGS') and buf.atoms and ke.isdigit(): return atom_value(case, buf, int(ke))
         return '__CPROVER_old(%s)' % e if buf.role != 'in' else e
     ctx['pre'] = pre
     for r in scalar_requires(case, lambda sc: pn[sc.name]):
@@ -386,7 +403,12 @@ def contract_text(case, fname='w', mutable_globals=()):
             if b.role != 'out' and b.ty.kind == 'int':
                 for k in range(b.n):
                     L.append('__CPROVER_requires(((%s*)%s)[%d] <= 1)' % (b.ty.carrier, pn[b.name], k))   # the stated bound of B01
-    if case.mode == 'ATOMS':
+    if case.mode == 'BASIS':
+        for b in case.bufs:
+            if b.atoms:
+                for k in range(b.n):
+                    L.append('__CPROVER_requires(((%s*)%s)[%d] <= 1)' % (b.ty.carrier, pn[b.name], k))   # one-hot basis element (built by the harness)
+    elif case.mode in ATOMS_LIKE:
         for b in case.bufs:
             if b.atoms:
                 for k in range(b.n):
@@ -398,22 +420,24 @@ def contract_text(case, fname='w', mutable_globals=()):
     for r in case.requires:
         L.append('__CPROVER_requires(%s)' % r.c(ctx))
     asg = ['__CPROVER_object_whole(%s)' % pn[b.name] for b in case.bufs if b.role != 'in']
-    asg += ['VERIF_threw', 'VERIF_illtyped'] + (['VERIF_softtyped'] if case.mode == 'ATOMS' else [])
+    asg += ['VERIF_threw', 'VERIF_illtyped'] + (['VERIF_softtyped'] if case.mode in ATOMS_LIKE else [])
     # function-local statics of the library (guard variable + cached constant) belong to the frame; the contract
     # describes the first call: guards are 0 on entry (DFCC havocs non-const statics otherwise)
     for g in mutable_globals:
         asg.append(g['name'] if g['scalar'] else '__CPROVER_object_whole(%s)' % g['name'])
         if g['scalar'] and g['zero_init']: L.append('__CPROVER_requires(%s == 0)' % g['name'])
     L.append('__CPROVER_assigns(%s)' % ', '.join(asg))
-    if case.mode == 'ATOMS':
+    if case.mode in ATOMS_LIKE:
         L.append('__CPROVER_ensures(VERIF_illtyped == 0)')      # applicability obligation: postcondition.1
     ctx['post'] = lambda buf, ke: '((%s*)%s)[%s]' % (buf.ty.carrier, pn[buf.name], ke)
     for (b, k, e) in case.ensures:
         if b == 'bool':
             L.append('__CPROVER_ensures(%s)' % e.c(ctx))
+        elif case.mode == 'TAGS':
+            L.append('__CPROVER_ensures(((%s*)%s)[%d] == %s)' % (b.ty.carrier, pn[b.name], k, full_tag(case, b)))
         else:
             L.append('__CPROVER_ensures(((%s*)%s)[%d] == %s)' % (b.ty.carrier, pn[b.name], k, e.c(ctx)))
-    if case.mode == 'ATOMS':
+    if case.mode in ATOMS_LIKE:
         L.append('__CPROVER_ensures(VERIF_softtyped == 0)')     # diagnostic only (last clause): no operation at all left the typing
     return '\n'.join(L) + '\n'
 
@@ -422,12 +446,15 @@ def dfcc_main(case, fname='w'):
     decl = []
     i = 0
     assign_atom_offsets(case)
+    if case.mode == 'BASIS':
+        for b in case.bufs:
+            if b.atoms: decl.append('u32 pos_%s = nondet_u32(); __CPROVER_assume(pos_%s < %du);' % (b.name, b.name, b.n))
     for b in case.bufs:
-        if case.mode == 'ATOMS' or case.b01:
+        if case.mode in ATOMS_LIKE or case.b01:
             c = b.ty.carrier
             decl.append('%s %s[%d];' % (c, b.name, b.n))
             for k in range(b.n):
-                if case.mode == 'ATOMS' and b.atoms: decl.append('%s[%d] = %s;' % (b.name, k, atom_value(case, b, k)))
+                if case.mode in ATOMS_LIKE and b.atoms: decl.append('%s[%d] = %s;' % (b.name, k, atom_value(case, b, k)))
                 elif case.b01 and b.role != 'out' and b.ty.kind == 'int': decl.append('%s[%d] = (%s)(nondet_u8() & 1);' % (b.name, k, c))
                 else: decl.append('%s[%d] = nondet_%s();' % (b.name, k, c))
             decl.append('ptr_t p%d = (ptr_t)%s;' % (i, b.name)); ps.append('p%d' % i); i += 1
@@ -443,15 +470,18 @@ def harness_main(case, fname='w'):
     stated fallback where contract instrumentation is too slow."""
     L = ['int main(void) {']
     assign_atom_offsets(case)
-    if case.mode == 'ATOMS':
+    if case.mode in ATOMS_LIKE:
         # the 0/1 product table must be nondeterministic: without --dfcc nothing havocs the (zero-initialised) global,
         # every product would be 0 and the clauses would hold vacuously
         L.append('  for (int k = 0; k < VERIF_NWORDS; k++) VERIF_W[k] = nondet_u64();')
+    if case.mode == 'BASIS':
+        for b in case.bufs:
+            if b.atoms: L.append('  u32 pos_%s = nondet_u32(); __CPROVER_assume(pos_%s < %du);' % (b.name, b.name, b.n))
     for b in case.bufs:
         c = b.ty.carrier
         L.append('  %s %s[%d]; %s %s_pre[%d];' % (c, b.name, b.n, c, b.name, b.n))
         for k in range(b.n):
-            if case.mode == 'ATOMS' and b.atoms:
+            if case.mode in ATOMS_LIKE and b.atoms:
                 L.append('  %s[%d] = %s;' % (b.name, k, atom_value(case, b, k)))
             elif k in case.zero_in.get(b.name, ()):
                 L.append('  %s[%d] = 0;' % (b.name, k))
@@ -470,7 +500,7 @@ def harness_main(case, fname='w'):
         L.append('  __CPROVER_assume(%s);' % r.c(ctx))
     args = ['(ptr_t)%s' % b.name for b in case.bufs] + [sc.name for sc in case.scalars]
     L.append('  %s(%s);' % (fname, ', '.join(args)))
-    if case.mode == 'ATOMS':
+    if case.mode in ATOMS_LIKE:
         L.append('  __CPROVER_assert(VERIF_illtyped == 0, "post.applicability");')
     n = 0
     ctx['post'] = lambda buf, ke: '%s[%s]' % (buf.name, ke)
@@ -478,12 +508,14 @@ def harness_main(case, fname='w'):
         n += 1
         if b == 'bool':
             L.append('  __CPROVER_assert(%s, "post.%d %s");' % (e.c(ctx), n, k))
+        elif case.mode == 'TAGS':
+            L.append('  __CPROVER_assert(%s[%d] == %s, "post.%d %s[%d] carries the full operand tag");' % (b.name, k, full_tag(case, b), n, b.name, k))
         else:
             L.append('  __CPROVER_assert(%s[%d] == %s, "post.%d %s[%d]");' % (b.name, k, e.c(ctx), n, b.name, k))
     for b in case.bufs:
         if b.role == 'in':
             L.append('  for (int k = 0; k < %d; k++) __CPROVER_assert(%s[k] == %s_pre[k], "frame.%s input unchanged");' % (b.n, b.name, b.name, b.name))
-    if case.mode == 'ATOMS':
+    if case.mode in ATOMS_LIKE:
         L.append('  __CPROVER_assert(VERIF_softtyped == 0, "diagnostic.softtyped");')
     L.append('  __CPROVER_assert(0, "VACUITY-CANARY reachable end of harness");')
     L.append('  return 0;\n}')
@@ -496,17 +528,20 @@ def case_data_bits(case):
 
 def prelude_text(case):
     t = open(os.path.join(HERE, 'prelude', 'base.h')).read()
-    if case.mode == 'ATOMS':
+    if case.mode == 'BASIS':
+        t += open(os.path.join(HERE, 'prelude', 'mode_ring.h')).read()
+    elif case.mode in ATOMS_LIKE:
         na, nb = assign_atom_offsets(case)
         dw = case_data_bits(case)
+        if case.mode == 'TAGS': na, nb = 1, 0; t += '#define VERIF_TAGS 1\n'
         t += '#define VERIF_NA %d\n#define VERIF_NB %d\n#define VERIF_DW %d\n' % (max(na, 1), nb, dw)
-        if any(b.atoms == 'AA' for b in case.bufs): t += '#define VERIF_SQ 1\n'   # symmetric NAxNA product table + opaque sqrt
+        if any(b.atoms == 'AA' for b in case.bufs): t += '#define VERIF_SQ 1\n'   # squares of A-atoms are table bits (NA entries) + opaque sqrt
         t += open(os.path.join(HERE, 'prelude', 'mode_atoms.h')).read()
     elif case.mode == 'UF':
         t += open(os.path.join(HERE, 'prelude', 'mode_uf.h')).read()
     else:
         t += open(os.path.join(HERE, 'prelude', 'mode_sym.h')).read()
-    if case.mode != 'ATOMS':
+    if case.mode not in ATOMS_LIKE:
         t += open(os.path.join(HERE, 'prelude', 'libm.h')).read()
     return t
 
@@ -598,13 +633,13 @@ def stage_translate(args):
             pre = prelude_text(case)
             db = case_data_bits(case)
             pb = [b.ty.bits for b in case.bufs]
-            ctext_h, info = ir2c.translate(mod, [name], atoms=(case.mode == 'ATOMS'), contracts={}, data_bits=db, param_bits=pb)
+            ctext_h, info = ir2c.translate(mod, [name], atoms=(case.mode in ATOMS_LIKE), contracts={}, data_bits=db, param_bits=pb)
             hfile = os.path.join(gdir, name + '.h.c')
             open(hfile, 'w').write(pre + ctext_h + harness_main(case, name))
             d['hfile'] = hfile
             cfile = hfile
             if case.form == 'dfcc':
-                ctext, info = ir2c.translate(mod, [name], atoms=(case.mode == 'ATOMS'), contracts={name: contract_text(case, name, info.get('mutable_globals', ()))}, data_bits=db, param_bits=pb)
+                ctext, info = ir2c.translate(mod, [name], atoms=(case.mode in ATOMS_LIKE), contracts={name: contract_text(case, name, info.get('mutable_globals', ()))}, data_bits=db, param_bits=pb)
                 cfile = os.path.join(gdir, name + '.c')
                 open(cfile, 'w').write(pre + ctext + dfcc_main(case, name))
             d.update(status='TRANSLATED', cfile=cfile, info=info, t_ir2c=time.time() - t1)
@@ -666,7 +701,7 @@ def classify(case, d):
         d.update(status='UNDECIDED', detail='vacuity guard: end of harness unreachable under the preconditions'); return
     # ATOMS: the last ensures clause / the "diagnostic.softtyped" assertion is informational, not an obligation
     diag = []
-    if case.mode == 'ATOMS':
+    if case.mode in ATOMS_LIKE:
         diag = [k for k, (desc, v) in res.items() if desc.startswith('diagnostic.softtyped')]
         pcs = sorted([k for k, (desc, v) in res.items() if re.match(r'.*\.postcondition\.\d+$', k) and 'ensures' in desc], key=natural_key)
         if pcs and not diag: diag = [pcs[-1]]
@@ -676,7 +711,7 @@ def classify(case, d):
     d['n_obligations'] = len(obl)
     d['n_discharged'] = len(obl) - len(failed)
     n_post = len([k for k, v in obl.items() if 'ensures' in v[0] or v[0].startswith('post.')])
-    need = len(case.ensures) + (1 if case.mode == 'ATOMS' else 0)
+    need = len(case.ensures) + (1 if case.mode in ATOMS_LIKE else 0)
     if n_post < need:
         d.update(status='UNDECIDED', detail='vacuity guard: %d postcondition obligations for %d clauses' % (n_post, need)); return
     if not failed:
@@ -689,7 +724,7 @@ def classify(case, d):
     for k, (desc, v) in sorted(failed.items(), key=lambda kv: natural_key(kv[0])):
         names.append(describe_obligation(case, k, desc))
     d['failed_names'] = names
-    if case.mode == 'ATOMS' and (d['soft_illtyped'] or any('applicability' in n for n in names)):
+    if case.mode in ATOMS_LIKE and (d['soft_illtyped'] or any('applicability' in n for n in names)):
         # some operation left the provenance typing: the abstraction cannot decide; native replay on the real code does
         d['status'] = 'INAPPLICABLE'; d['detail'] = 'ATOMS: an operation left the provenance typing (abstraction not applicable)'; return
     d['status'] = 'FAIL'
@@ -701,8 +736,8 @@ def describe_obligation(case, key, desc):
     m = re.match(r'.*\.postcondition\.(\d+)$', key)
     if m and 'ensures' in desc:
         n = int(m.group(1))
-        off = 1 if case.mode == 'ATOMS' else 0
-        if case.mode == 'ATOMS' and n == 1: return '%s: applicability (VERIF_illtyped == 0)' % key
+        off = 1 if case.mode in ATOMS_LIKE else 0
+        if case.mode in ATOMS_LIKE and n == 1: return '%s: applicability (VERIF_illtyped == 0)' % key
         i = n - 1 - off
         if 0 <= i < len(case.ensures):
             b, k, e = case.ensures[i]
@@ -785,7 +820,7 @@ def replay_source(case, vectors):
          'static unsigned long long rng(){ rng_state ^= rng_state << 13; rng_state ^= rng_state >> 7; rng_state ^= rng_state << 17; return rng_state; }',
          'template<class T> static bool same(T x, T y){ return std::memcmp(&x,&y,sizeof(T))==0; }',
          'template<class T> static void show(const char*n, T v){ unsigned long long b=0; std::memcpy(&b,&v,sizeof(T)); std::printf("%s=%.17g(0x%llx) ", n, (double)v, b); }']
-    exact = case.mode in ('ATOMS', 'B01') or case.bounded
+    exact = case.mode in ATOMS_LIKE or case.bounded
     L.append('static int run(int trial, %s) {' % ', '.join(['%s *%s' % (b.ty.cpp, b.name) for b in case.bufs] + ['%s %s' % (s.ty.cpp, s.name) for s in case.scalars]))
     for b in case.bufs:
         L.append('  %s %s_pre[%d]; for (int k=0;k<%d;k++) %s_pre[k]=%s[k];' % (b.ty.cpp, b.name, b.n, b.n, b.name, b.name))
@@ -962,6 +997,8 @@ MODE_ASSUMPTIONS = {
     'SYM': 'SYM: element values fully symbolic, real two\'s-complement / IEEE semantics (sqrt and fused multiply-add opaque)',
     'UF': 'UF: fadd fsub fmul fdiv fma sqrt and int<->float conversions are uninterpreted functions on bit patterns (fadd, fmul commutative); a clause proved for every interpretation holds for IEEE-754; machine float arithmetic is otherwise not interpreted',
     'ATOMS': 'ATOMS: provenance-concrete evaluation; proves out[e] equals the specified sum of products for every 0/1 product table and that no operation leaves the provenance typing; the lift to all element values is the linear-form lemma of DESIGN.md section 4 (coefficients compared modulo 2^14 for 32-bit, 2^46 for 64-bit carriers); float units are verified in the ring reinterpretation, i.e. exact for integer-valued data; rounding bounds are not machine-checked',
+    'TAGS': 'TAGS: degree typing by concrete tags -- proves every output element is a sum of products with exactly one factor from each operand (multilinear) and that no control decision, address or non-ring operation sees data; paired with a BASIS run of the same code',
+    'BASIS': 'BASIS: the code (proved multilinear and oblivious by its TAGS run) is evaluated in the integer ring on every tuple of basis elements at once (each operand one-hot at a symbolic position); a multilinear map is determined by these values (lemma, pen and paper), so the Einstein-sum clauses hold for all element values; float units in the ring reinterpretation (exact for integer-valued data)',
     'B01': 'B01: inputs restricted to {0,1} (exhaustive by SAT); bounded, not counted as proved',
 }
 
@@ -983,7 +1020,8 @@ def make_controls(cases, seed):
         b, k, e = c.ensures[0]
         if b == 'bool': bad = ('bool', 'NEGATED ' + str(k), e.bnot())
         elif b.ty.kind == 'float' and c.mode != 'ATOMS': bad = (b, k, -e)
-        elif c.mode == 'ATOMS': bad = (b, k, e + e)
+        elif c.mode == 'TAGS': bad = (b, k, e)
+        elif c.mode in ('ATOMS', 'BASIS'): bad = (b, k, e + e)
         elif b.ty.kind == 'bool': bad = (b, k, e.bnot())
         else: bad = (b, k, e + 1)
         per_mode[c.mode] = per_mode.get(c.mode, 0) + 1
@@ -992,6 +1030,7 @@ def make_controls(cases, seed):
             cc.ensures = [bad] + list(c.ensures[1:])
             cc.cid = c.cid + '#control-' + ('dfcc' if form == 'dfcc' else 'assert')
             cc.form = form; cc.control = True
+            if c.mode == 'TAGS': cc.tags_expect_wrong = True
             out.append(cc)
     return out
 
@@ -1209,3 +1248,12 @@ def merge_extra_violations(prop, extra, viols, rc):
     json.dump(ev, open(evp, 'w'), indent=1, default=str)
     if nv: return 1
     return rc
+
+def multilinear_cases(case):
+    """For code that is multilinear in k >= 2 operands (network einsum, product chains, determinants by rows): the pair
+    of runs (TAGS, BASIS) that together prove the case's Einstein-sum clauses for all element values.  The operand
+    buffers must have atoms=('T', i) with distinct i."""
+    import copy
+    t = copy.copy(case); t.mode = 'TAGS'; t.cid = case.cid + '#tags'; t.b01 = False; t.bounded = False
+    b = copy.copy(case); b.mode = 'BASIS'; b.cid = case.cid + '#basis'; b.b01 = False; b.bounded = False
+    return [t, b]
